@@ -142,7 +142,7 @@ class Large(Facet):
     shards = {"quick": 4, "thorough": 8}
 
     def enumerate(self, tier):
-        sizes = [(40, [467]), (80, [9, 73]), (200, [211])] if tier == "quick" else [
+        sizes = [(40, [467]), (80, [9, 73])] if tier == "quick" else [
             (40, [467]), (80, [9, 73]), (200, [211]), (60, [7, 11, 13]), (128, [1031]), (300, [37]), (25, [10007]), (90, [3, 5, 127]), (500, [53])]
         for n_t, extra in sizes:
             for uneven in (False, True):
